@@ -36,7 +36,7 @@ func (s *stepWorld) c09Request(c *vConn, own uint32, k int) (hwebsocket.ProtoMsg
 	case 7:
 		return &hagallpb.EntityComponentTypeAddRequest{Type: hagallpb.MsgType_MSG_TYPE_ENTITY_COMPONENT_TYPE_ADD_REQUEST, Timestamp: vts(), RequestId: 1, EntityComponentTypeName: "t2"}, "type_add"
 	case 8:
-		return &vikjapb.EntityActionRequest{Type: vikjapb.MsgType_MSG_TYPE_VIKJA_ENTITY_ACTION_REQUEST, Timestamp: vts(), RequestId: 1, EntityAction: &vikjapb.EntityAction{EntityId: own, Name: "act", Timestamp: vts()}}, "action"
+		return &vikjapb.EntityActionRequest{Type: vikjapb.MsgType_MSG_TYPE_VIKJA_ENTITY_ACTION_REQUEST, Timestamp: vts(), RequestId: 1, EntityAction: &vikjapb.EntityAction{EntityId: own, Name: "act9", Timestamp: vts()}}, "action"
 	case 9:
 		return &odalpb.AssetInstanceAddRequest{Type: odalpb.MsgType_MSG_TYPE_ODAL_ASSET_INSTANCE_ADD_REQUEST, Timestamp: vts(), RequestId: 1, EntityId: own, AssetId: "a"}, "asset_add"
 	case 10:
